@@ -42,12 +42,23 @@ def c11(tier):
         v = dict(v)
         v["what"] = f"{v['kind']}: {v['detail']}"
         violations.append(v)
+    # classes split against each other across rules (`_` beside ranges beside characters):
+    # product exploration over all strings
+    multi = []
+    for fam in ["range_overlap", "diff_rules"]:
+        r = vlib.pexp(["product", fam])
+        multi.append({k: r.get(k) for k in ["family", "defs", "states", "transitions", "exhaustive"]})
+        for v in r.get("violations", []):
+            if v["kind"] in ("viability", "accept"):
+                v = dict(v)
+                v["what"] = f"classes of several rules, all strings: {v['kind']}: {v['detail']} (after reading {v['path']!r})"
+                violations.append(v)
     cov = {
-        "states": rm["unit"]["states"] + rm["tagged"]["states"] + rm["tagged_depth2"]["states"],
+        "states": rm["unit"]["states"] + rm["tagged"]["states"] + rm["tagged_depth2"]["states"] + sum(m["states"] for m in multi),
         "transitions": rm["unit"]["transitions"] + rm["tagged"]["transitions"] + rm["tagged_depth2"]["transitions"],
         "traces_validated_against_impl": rm["unit"]["transitions"] + rm["tagged"]["sequences"] + rm["tagged_depth2"]["sequences"],
         "rangemap_unit": rm["unit"], "rangemap_tagged": rm["tagged"], "rangemap_tagged_depth2": rm["tagged_depth2"],
-        "class_expressions": ce["enumerated"], "class_regress": ce["regress"],
+        "class_expressions": ce["enumerated"], "class_regress": ce["regress"], "classes_across_rules": multi,
         "samples": ce["enumerated"]["samples"] + [{"rangemap": "BFS from the empty RangeMap<()> over universe 0..8 with insert / insert_ranges / remove_ranges of every sorted disjoint range list, to fixpoint; invariant: sorted, disjoint, non-inverted, point-wise equal to a bitset model"}],
         "exhaustive": rm["unit"]["fixpoint"],
         "explanation": "The state space is explored on the real RangeMap (no model of it): every transition executes the real operation and is compared with a bitset; "
